@@ -268,9 +268,9 @@ class LockStep:
         if pal is None:
             pal = self._pal = F.hostile_palette()
         badkeys = [v for _, v in pal if not fam.key_ok(v) and
-                   not isinstance(v, F.Indexable)]
+                   not F.is_duck_number(v)]
         badvals = [v for _, v in pal if self.is_mapping and
-                   not fam.val_ok(v) and not isinstance(v, F.Indexable)]
+                   not fam.val_ok(v) and not F.is_duck_number(v)]
         good = rng.choice(present) if present and rng.random() < .5 \
             else rng.choice(self.g.universe)
         if self.is_mapping:
@@ -320,6 +320,7 @@ class LockStep:
         elif not eq(got, want):
             # accepted after all (another property's business): follow it
             self._set_model(got)
+            want = got
         if self.structure:
             errs, w = structural_checks(self.c, self.is_mapping,
                                         self.use_check_module)
